@@ -12,36 +12,36 @@ open PgVerif PgVerif.Model PgVerif.Spec List
 
 /-! ### decimal text -/
 
-theorem isDigit_digitByte (d : Nat) : isDigit (digitByte d) = true := by
-  unfold digitByte; split <;> decide
+theorem isDigit_digitByte (d : Nat) : drIsDigit (drDigitByte d) = true := by
+  unfold drDigitByte; split <;> decide
 
-theorem decNatAux_digits (fuel n : Nat) (acc : Bytes) (h : acc.all isDigit = true) :
-    (decNatAux fuel n acc).all isDigit = true := by
+theorem drDecNatAux_digits (fuel n : Nat) (acc : Bytes) (h : acc.all drIsDigit = true) :
+    (drDecNatAux fuel n acc).all drIsDigit = true := by
   induction fuel generalizing n acc with
-  | zero => simpa [decNatAux] using h
+  | zero => simpa [drDecNatAux] using h
   | succ f ih =>
-    unfold decNatAux
+    unfold drDecNatAux
     by_cases hn : n < 10
     · rw [if_pos hn]; simp [isDigit_digitByte, h]
     · rw [if_neg hn]; exact ih _ _ (by simp [isDigit_digitByte, h])
 
-theorem decNatAux_ne_nil (fuel n : Nat) (acc : Bytes) (h : acc ≠ [] ∨ 0 < fuel) : decNatAux fuel n acc ≠ [] := by
+theorem drDecNatAux_ne_nil (fuel n : Nat) (acc : Bytes) (h : acc ≠ [] ∨ 0 < fuel) : drDecNatAux fuel n acc ≠ [] := by
   induction fuel generalizing n acc with
   | zero =>
     rcases h with h | h
-    · simpa [decNatAux] using h
+    · simpa [drDecNatAux] using h
     · omega
   | succ f ih =>
-    unfold decNatAux
+    unfold drDecNatAux
     by_cases hn : n < 10
     · rw [if_pos hn]; simp
     · rw [if_neg hn]; exact ih _ _ (Or.inl (by simp))
 
-theorem decNat_digits (n : Nat) : (decNat n).all isDigit = true := decNatAux_digits _ _ _ (by simp)
-theorem decNat_ne_nil (n : Nat) : decNat n ≠ [] := decNatAux_ne_nil _ _ _ (Or.inr (by omega))
+theorem drDecNat_digits (n : Nat) : (drDecNat n).all drIsDigit = true := drDecNatAux_digits _ _ _ (by simp)
+theorem drDecNat_ne_nil (n : Nat) : drDecNat n ≠ [] := drDecNatAux_ne_nil _ _ _ (Or.inr (by omega))
 
-theorem decInt_of_pos (n : Int) (h : 0 < n) : decInt n = decNat n.toNat := by
-  unfold decInt; rw [if_neg (by omega)]
+theorem drDecInt_of_pos (n : Int) (h : 0 < n) : drDecInt n = drDecNat n.toNat := by
+  unfold drDecInt; rw [if_neg (by omega)]
 
 /-! ### the regular expression `^\.+pg\.dropped\.(\d+)\.+$` on PostgreSQL's placeholder name -/
 
@@ -54,35 +54,35 @@ theorem takeWhile_append_stop {α} (p : α → Bool) (ds : List α) (x : α) (r 
     simp [h.1, ih h.2]
 
 /-- the pattern matches `........pg.dropped.<digits>........` and captures the digits -/
-theorem droppedDigits_pgName (ds : Bytes) (hd : ds.all isDigit = true) (hne : ds ≠ []) :
-    droppedDigits (dots8 ++ pgDroppedLit ++ ds ++ dots8) = some ds := by
-  have hs1 : (dots8 ++ pgDroppedLit ++ ds ++ dots8).dropWhile (· == 46) = pgDroppedLit ++ ds ++ dots8 := by
-    simp [dots8, pgDroppedLit, List.dropWhile]
-  have htw : (ds ++ dots8).takeWhile isDigit = ds := by
-    unfold dots8
-    exact takeWhile_append_stop isDigit ds 46 _ hd (by decide)
+theorem droppedDigits_pgName (ds : Bytes) (hd : ds.all drIsDigit = true) (hne : ds ≠ []) :
+    droppedDigits (drDots8 ++ pgDroppedLit ++ ds ++ drDots8) = some ds := by
+  have hs1 : (drDots8 ++ pgDroppedLit ++ ds ++ drDots8).dropWhile (· == 46) = pgDroppedLit ++ ds ++ drDots8 := by
+    simp [drDots8, pgDroppedLit, List.dropWhile]
+  have htw : (ds ++ drDots8).takeWhile drIsDigit = ds := by
+    unfold drDots8
+    exact takeWhile_append_stop drIsDigit ds 46 _ hd (by decide)
   unfold droppedDigits
   simp only [hs1]
-  have hlen : ¬ ((pgDroppedLit ++ ds ++ dots8).length = (dots8 ++ pgDroppedLit ++ ds ++ dots8).length) := by
-    simp [dots8, pgDroppedLit]
+  have hlen : ¬ ((pgDroppedLit ++ ds ++ drDots8).length = (drDots8 ++ pgDroppedLit ++ ds ++ drDots8).length) := by
+    simp [drDots8, pgDroppedLit]
   rw [if_neg hlen]
-  have hpre : pgDroppedLit.isPrefixOf (pgDroppedLit ++ ds ++ dots8) = true := by
+  have hpre : pgDroppedLit.isPrefixOf (pgDroppedLit ++ ds ++ drDots8) = true := by
     simp [pgDroppedLit, List.isPrefixOf]
   simp only [hpre, Bool.not_true, Bool.false_eq_true, if_false]
-  have hdrop : (pgDroppedLit ++ ds ++ dots8).drop 11 = ds ++ dots8 := by
+  have hdrop : (pgDroppedLit ++ ds ++ drDots8).drop 11 = ds ++ drDots8 := by
     simp [pgDroppedLit]
   simp only [hdrop, htw, List.drop_left]
   have hemp : ds.isEmpty = false := by
     cases ds with
     | nil => exact absurd rfl hne
     | cons _ _ => rfl
-  simp [hemp, dots8]
+  simp [hemp, drDots8]
 
 /-- … in particular PostgreSQL's name of the dropped attribute number n > 0, capturing the decimal text of n -/
-theorem droppedDigits_pgDroppedName (n : Int) (h : 0 < n) : droppedDigits (pgDroppedName n) = some (decInt n) := by
+theorem droppedDigits_pgDroppedName (n : Int) (h : 0 < n) : droppedDigits (pgDroppedName n) = some (drDecInt n) := by
   unfold pgDroppedName
-  rw [decInt_of_pos n h]
-  exact droppedDigits_pgName _ (decNat_digits _) (decNat_ne_nil _)
+  rw [drDecInt_of_pos n h]
+  exact droppedDigits_pgName _ (drDecNat_digits _) (drDecNat_ne_nil _)
 
 /-! ### what the loop bodies read from a row -/
 
@@ -101,7 +101,7 @@ deriving DecidableEq, Repr
 
 def factsOfRow (row : Row) : AttrFacts :=
   ⟨getOID row "attrelid", getString row "attname", getOID row "atttypid", getInt row "attlen", getInt row "attnum",
-   getBool row "attbyval", getString row "attalign", getString row "attstorage", getBool row "attisdropped"⟩
+   drGetBool row "attbyval", getString row "attalign", getString row "attstorage", drGetBool row "attisdropped"⟩
 
 /-- what a correct row reader delivers for the stored attribute row `a` (C03: an oid column as its value, a name
 column as the bytes up to the first NUL, an int2 column as its value, a bool column as a bool, a char column as a
@@ -110,9 +110,9 @@ def factsOfAttr (a : AttrRow) : AttrFacts :=
   ⟨a.relid, a.name, a.typid, a.len, a.num, some a.byval, [UInt8.ofNat (alignCh a.align)], [UInt8.ofNat a.storage], some a.dropped⟩
 
 def plausibleFacts (f : AttrFacts) : Bool :=
-  oneOfBytes [99, 115, 105, 100] f.align && oneOfBytes [112, 101, 109, 120] f.storage
+  drOneOfBytes [99, 115, 105, 100] f.align && drOneOfBytes [112, 101, 109, 120] f.storage
 
-theorem plausibleAttrRow_facts (row : Row) : plausibleAttrRow row = plausibleFacts (factsOfRow row) := rfl
+theorem drPlausibleAttrRow_facts (row : Row) : drPlausibleAttrRow row = plausibleFacts (factsOfRow row) := rfl
 
 def alignByteOfFacts (f : AttrFacts) : Nat :=
   match f.align with
@@ -144,23 +144,24 @@ def attrOfFacts (relOID : Nat) (f : AttrFacts) : Option DroppedColumnInfo :=
            droppedName := f.name, typeOID := f.typid, typeName := Model.typeName f.typid, attLen := f.len,
            attAlign := alignByteOfFacts f, attByVal := f.byval.getD false }
 
-theorem attrOfRow_facts (relOID : Nat) (row : Row) : attrOfRow relOID row = attrOfFacts relOID (factsOfRow row) := rfl
+theorem drAttrOfRow_facts (relOID : Nat) (row : Row) : drAttrOfRow relOID row = attrOfFacts relOID (factsOfRow row) := rfl
 
-theorem attrScore_facts (rows : List Row) : attrScore rows = ((rows.map factsOfRow).filter plausibleFacts).length := by
-  unfold attrScore
+theorem drAttrScore_facts (rows : List Row) : drAttrScore rows = ((rows.map factsOfRow).filter plausibleFacts).length := by
+  unfold drAttrScore
   rw [List.filter_map, List.length_map]
   rfl
 
 /-- attalign is one of PostgreSQL's four alignment bytes -/
 def AlignOK (a : AttrRow) : Prop := a.align = 1 ∨ a.align = 2 ∨ a.align = 4 ∨ a.align = 8
+instance (a : AttrRow) : Decidable (AlignOK a) := by unfold AlignOK; infer_instance
 
 theorem alignByte_factsOfAttr (a : AttrRow) (h : AlignOK a) : alignByteOfFacts (factsOfAttr a) = alignCh a.align := by
   rcases h with h | h | h | h <;> simp [alignByteOfFacts, factsOfAttr, alignCh, h] <;> decide
 
-theorem plausible_factsOfAttr (a : AttrRow) (h : AlignOK a) (hs : storageOK a.storage) :
+theorem plausible_factsOfAttr (a : AttrRow) (h : AlignOK a) (hs : drStorageOK a.storage) :
     plausibleFacts (factsOfAttr a) = true := by
   rcases h with h | h | h | h <;> rcases hs with hs | hs | hs | hs <;>
-    simp [plausibleFacts, factsOfAttr, alignCh, h, hs, oneOfBytes] <;> decide
+    simp [plausibleFacts, factsOfAttr, alignCh, h, hs, drOneOfBytes] <;> decide
 
 /-! ### the layout choice -/
 
@@ -170,45 +171,45 @@ def rowsOfLayout : Layout → List Row → List Row → List Row → List Row
   | .v14, _, r15, _ => r15
   | .v12, _, _, r12 => r12
 
-theorem attrScore_all (rows : List Row) (h : ∀ row ∈ rows, plausibleAttrRow row = true) : attrScore rows = rows.length := by
-  unfold attrScore
+theorem drAttrScore_all (rows : List Row) (h : ∀ row ∈ rows, drPlausibleAttrRow row = true) : drAttrScore rows = rows.length := by
+  unfold drAttrScore
   rw [List.filter_eq_self.mpr h]
 
-theorem betterRows_bad (best : List Row × Nat) (rows : List Row) (h : attrScore rows = 0) : betterRows best rows = best := by
-  unfold betterRows
+theorem drBetterRows_bad (best : List Row × Nat) (rows : List Row) (h : drAttrScore rows = 0) : drBetterRows best rows = best := by
+  unfold drBetterRows
   rw [if_neg (by omega)]
 
-theorem betterRows_good (rows : List Row) (h : ∀ row ∈ rows, plausibleAttrRow row = true) :
-    betterRows ([], 0) rows = (rows, rows.length) := by
-  unfold betterRows
-  rw [attrScore_all rows h]
+theorem drBetterRows_good (rows : List Row) (h : ∀ row ∈ rows, drPlausibleAttrRow row = true) :
+    drBetterRows ([], 0) rows = (rows, rows.length) := by
+  unfold drBetterRows
+  rw [drAttrScore_all rows h]
   cases rows with
   | nil => rfl
   | cons r rs => rw [if_pos (by simp)]
 
 /-- a later layout cannot displace rows that are all plausible -/
-theorem betterRows_keep (g rows : List Row) (h : attrScore rows = 0) : betterRows (g, g.length) rows = (g, g.length) :=
-  betterRows_bad _ _ h
+theorem drBetterRows_keep (g rows : List Row) (h : drAttrScore rows = 0) : drBetterRows (g, g.length) rows = (g, g.length) :=
+  drBetterRows_bad _ _ h
 
 /-- **The layout choice.**  If the rows read under layout `l`'s schema all carry a legal attalign/attstorage pair and
 none of the rows read under the two other schemas does, readAttrRowsWithDropped returns the rows of layout `l`. -/
 theorem readAttrRows_select (rr : RowReader) (data : Bytes) (l : Layout) (r16 r15 r12 : List Row)
     (h16 : rr data schemaPGAttrDropped true = .ok r16) (h15 : rr data schemaPGAttrDroppedV15 true = .ok r15)
     (h12 : rr data schemaPGAttrDroppedV12 true = .ok r12)
-    (hgood : ∀ row ∈ rowsOfLayout l r16 r15 r12, plausibleAttrRow row = true)
-    (hb16 : l ≠ .v16 → attrScore r16 = 0) (hb15 : l ≠ .v14 → attrScore r15 = 0) (hb12 : l ≠ .v12 → attrScore r12 = 0) :
+    (hgood : ∀ row ∈ rowsOfLayout l r16 r15 r12, drPlausibleAttrRow row = true)
+    (hb16 : l ≠ .v16 → drAttrScore r16 = 0) (hb15 : l ≠ .v14 → drAttrScore r15 = 0) (hb12 : l ≠ .v12 → drAttrScore r12 = 0) :
     readAttrRowsWithDropped rr data = .ok (rowsOfLayout l r16 r15 r12) := by
   simp only [readAttrRowsWithDropped, h16, h15, h12, ok_bind, pure_eq_ok]
   cases l with
   | v16 =>
     simp only [rowsOfLayout] at hgood ⊢
-    rw [betterRows_good r16 hgood, betterRows_keep r16 r15 (hb15 (by decide)), betterRows_keep r16 r12 (hb12 (by decide))]
+    rw [drBetterRows_good r16 hgood, drBetterRows_keep r16 r15 (hb15 (by decide)), drBetterRows_keep r16 r12 (hb12 (by decide))]
   | v14 =>
     simp only [rowsOfLayout] at hgood ⊢
-    rw [betterRows_bad _ r16 (hb16 (by decide)), betterRows_good r15 hgood, betterRows_keep r15 r12 (hb12 (by decide))]
+    rw [drBetterRows_bad _ r16 (hb16 (by decide)), drBetterRows_good r15 hgood, drBetterRows_keep r15 r12 (hb12 (by decide))]
   | v12 =>
     simp only [rowsOfLayout] at hgood ⊢
-    rw [betterRows_bad _ r16 (hb16 (by decide)), betterRows_bad _ r15 (hb15 (by decide)), betterRows_good r12 hgood]
+    rw [drBetterRows_bad _ r16 (hb16 (by decide)), drBetterRows_bad _ r15 (hb15 (by decide)), drBetterRows_good r12 hgood]
 
 /-! ### the orderings -/
 
@@ -236,19 +237,270 @@ theorem droppedLE_eq (a b : DroppedColumnInfo) : droppedLE a b = !droppedLess b 
     · have : y < x := by omega
       simp [h2, this]
 
-theorem insertByRelNum_eq (a : DroppedColumnInfo) (l : List DroppedColumnInfo) : insertByRelNum a l = insertDropped a l := by
+theorem drInsertByRelNum_eq (a : DroppedColumnInfo) (l : List DroppedColumnInfo) : drInsertByRelNum a l = drInsertDropped a l := by
   induction l with
   | nil => rfl
   | cons b bs ih =>
-    unfold insertByRelNum insertDropped
+    unfold drInsertByRelNum drInsertDropped
     rw [droppedLE_eq]
     cases h : droppedLess b a <;> simp [ih]
 
 /-- `sort.Slice(dropped, relid then attnum)` (stable insertion sort) is the specification's ordering — on every list -/
-theorem sortByRelNum_eq (l : List DroppedColumnInfo) : sortByRelNum l = sortDropped l := by
-  unfold sortByRelNum sortDropped
+theorem drSortByRelNum_eq (l : List DroppedColumnInfo) : drSortByRelNum l = drSortDropped l := by
+  unfold drSortByRelNum drSortDropped
   induction l with
   | nil => rfl
-  | cons a l ih => simp only [List.foldr_cons, ih, insertByRelNum_eq]
+  | cons a l ih => simp only [List.foldr_cons, ih, drInsertByRelNum_eq]
+
+/-! ### the loop of parseDroppedColumns on the rows of a correct reader -/
+
+/-- the entry parseDroppedColumns builds for a dropped attribute `a` -/
+def modelInfo (names : List (Nat × Bytes)) (a : AttrRow) : DroppedColumnInfo :=
+  { relOID := a.relid, tableName := (mapGet names a.relid).getD [], attNum := a.num,
+    originalName := droppedPrefix ++ drDecInt a.num, droppedName := a.name, typeOID := a.typid,
+    typeName := Model.typeName a.typid, attLen := a.len, attAlign := alignCh a.align, attByVal := a.byval }
+
+theorem droppedOfFacts_attr (names : List (Nat × Bytes)) (a : AttrRow) (hwf : a.DroppedWF) (hal : AlignOK a) :
+    droppedOfFacts names (factsOfAttr a) = if (a.dropped && decide (a.num > 0)) = true then some (modelInfo names a) else none := by
+  unfold droppedOfFacts
+  cases hd : a.dropped with
+  | false => simp [factsOfAttr, hd]
+  | true =>
+    obtain ⟨_, hdrop, _⟩ := hwf
+    obtain ⟨_, _, hpos, hname⟩ := hdrop hd
+    have hnum : ¬ a.num ≤ 0 := by omega
+    have hgt : a.num > 0 := hpos
+    have hdig : droppedDigits (factsOfAttr a).name = some (drDecInt a.num) := by
+      show droppedDigits a.name = _
+      rw [hname]; exact droppedDigits_pgDroppedName a.num hpos
+    have hfd : (factsOfAttr a).dropped = some true := by simp [factsOfAttr, hd]
+    simp only [hfd, hdig]
+    have hn' : ¬ (factsOfAttr a).num ≤ 0 := hnum
+    rw [if_neg hn']
+    simp only [Bool.true_and, decide_eq_true_eq, hgt, if_true]
+    rw [alignByte_factsOfAttr a hal]
+    rfl
+
+theorem filterMap_ite {α β} (p : α → Bool) (f : α → β) (l : List α) :
+    l.filterMap (fun a => if p a = true then some (f a) else none) = (l.filter p).map f := by
+  induction l with
+  | nil => rfl
+  | cons a l ih =>
+    cases h : p a <;> simp [h, ih]
+
+theorem filterMap_congr' {α β} (f g : α → Option β) (l : List α) (h : ∀ a ∈ l, f a = g a) : l.filterMap f = l.filterMap g := by
+  induction l with
+  | nil => rfl
+  | cons a l ih =>
+    simp only [List.filterMap_cons, h a (by simp)]
+    rw [ih fun b hb => h b (by simp [hb])]
+
+/-- the dropped attributes among the live rows, as parseDroppedColumns collects them (before sorting) -/
+theorem filterMap_droppedOfRow (names : List (Nat × Bytes)) (rows : List Row) (live : List AttrRow)
+    (hread : rows.map factsOfRow = live.map factsOfAttr) (hwf : ∀ a ∈ live, a.DroppedWF ∧ AlignOK a) :
+    rows.filterMap (droppedOfRow names) = (live.filter fun a => a.dropped && decide (a.num > 0)).map (modelInfo names) := by
+  have h1 : rows.filterMap (droppedOfRow names) = (rows.map factsOfRow).filterMap (droppedOfFacts names) := by
+    rw [List.filterMap_map]; rfl
+  rw [h1, hread, List.filterMap_map, ← filterMap_ite]
+  exact filterMap_congr' _ _ live fun a ha => droppedOfFacts_attr names a (hwf a ha).1 (hwf a ha).2
+
+/-- all rows a correct reader delivers for well-formed attribute rows are plausible -/
+theorem plausible_of_read (rows : List Row) (live : List AttrRow) (hread : rows.map factsOfRow = live.map factsOfAttr)
+    (hwf : ∀ a ∈ live, a.DroppedWF ∧ AlignOK a) : ∀ row ∈ rows, drPlausibleAttrRow row = true := by
+  intro row hrow
+  have hm : factsOfRow row ∈ live.map factsOfAttr := by rw [← hread]; exact List.mem_map_of_mem hrow
+  obtain ⟨a, ha, hfa⟩ := List.mem_map.mp hm
+  rw [drPlausibleAttrRow_facts, ← hfa]
+  exact plausible_factsOfAttr a (hwf a ha).2 (hwf a ha).1.1
+
+/-! ### type names are outside the comparison (PostgreSQL has no type for oid 0) -/
+
+def eraseTypeName (c : DroppedColumnInfo) : DroppedColumnInfo := { c with typeName := [] }
+
+theorem droppedLE_erase (a b : DroppedColumnInfo) : droppedLE (eraseTypeName a) (eraseTypeName b) = droppedLE a b := rfl
+
+theorem drInsertDropped_erase (a : DroppedColumnInfo) (l : List DroppedColumnInfo) :
+    (drInsertDropped a l).map eraseTypeName = drInsertDropped (eraseTypeName a) (l.map eraseTypeName) := by
+  induction l with
+  | nil => rfl
+  | cons b bs ih =>
+    unfold drInsertDropped
+    simp only [List.map_cons]
+    by_cases h : droppedLE a b = true
+    · have h' : droppedLE (eraseTypeName a) (eraseTypeName b) = true := h
+      rw [if_pos h, if_pos h']; rfl
+    · have h' : ¬ droppedLE (eraseTypeName a) (eraseTypeName b) = true := h
+      rw [if_neg h, if_neg h', List.map_cons, ih]
+
+theorem drSortDropped_erase (l : List DroppedColumnInfo) :
+    (drSortDropped l).map eraseTypeName = drSortDropped (l.map eraseTypeName) := by
+  unfold drSortDropped
+  induction l with
+  | nil => rfl
+  | cons a l ih => simp only [List.foldr_cons, List.map_cons, drInsertDropped_erase, ih]
+
+theorem drInsertDropped_perm (a : DroppedColumnInfo) (l : List DroppedColumnInfo) : drInsertDropped a l ~ a :: l := by
+  induction l with
+  | nil => exact Perm.refl _
+  | cons b bs ih =>
+    unfold drInsertDropped
+    by_cases h : droppedLE a b = true
+    · rw [if_pos h]
+    · rw [if_neg h]; exact ((Perm.cons b ih).trans (Perm.swap a b bs))
+
+theorem drSortDropped_perm (l : List DroppedColumnInfo) : drSortDropped l ~ l := by
+  unfold drSortDropped
+  induction l with
+  | nil => exact Perm.refl _
+  | cons a l ih => exact (drInsertDropped_perm a _).trans (Perm.cons a ih)
+
+/-! ### parseAllAttributes / buildColumnsWithDropped on the rows of a correct reader -/
+
+/-- the entry parseAllAttributes builds for attribute `a` -/
+def modelAttr (a : AttrRow) : DroppedColumnInfo :=
+  { relOID := a.relid, tableName := [], attNum := a.num,
+    originalName := if a.dropped then droppedKey a.num else a.name,
+    droppedName := a.name, typeOID := a.typid, typeName := Model.typeName a.typid, attLen := a.len,
+    attAlign := alignCh a.align, attByVal := a.byval }
+
+theorem attrOfFacts_attr (relOID : Nat) (a : AttrRow) (hal : AlignOK a) :
+    attrOfFacts relOID (factsOfAttr a) =
+      if decide (a.relid = relOID ∧ a.num > 0) = true then some (modelAttr a) else none := by
+  unfold attrOfFacts
+  by_cases h1 : a.relid = relOID
+  · have h1' : ¬ (factsOfAttr a).relid ≠ relOID := fun h => h h1
+    rw [if_neg h1']
+    by_cases h2 : a.num ≤ 0
+    · have h2' : (factsOfAttr a).num ≤ 0 := h2
+      rw [if_pos h2']
+      have : ¬ (a.relid = relOID ∧ a.num > 0) := fun h => by omega
+      simp [this]
+    · have h2' : ¬ (factsOfAttr a).num ≤ 0 := h2
+      rw [if_neg h2']
+      have : a.relid = relOID ∧ a.num > 0 := ⟨h1, by omega⟩
+      simp only [this, and_self, decide_true, if_true]
+      rw [alignByte_factsOfAttr a hal]
+      cases hd : a.dropped <;> simp [modelAttr, factsOfAttr, hd]
+  · have h1' : (factsOfAttr a).relid ≠ relOID := h1
+    rw [if_pos h1']
+    have : ¬ (a.relid = relOID ∧ a.num > 0) := fun h => h1 h.1
+    simp [this]
+
+theorem filterMap_attrOfRow (relOID : Nat) (rows : List Row) (live : List AttrRow)
+    (hread : rows.map factsOfRow = live.map factsOfAttr) (hal : ∀ a ∈ live, AlignOK a) :
+    rows.filterMap (drAttrOfRow relOID) = (live.filter fun a => decide (a.relid = relOID ∧ a.num > 0)).map modelAttr := by
+  have h1 : rows.filterMap (drAttrOfRow relOID) = (rows.map factsOfRow).filterMap (attrOfFacts relOID) := by
+    rw [List.filterMap_map]; rfl
+  rw [h1, hread, List.filterMap_map, ← filterMap_ite]
+  exact filterMap_congr' _ _ live fun a ha => attrOfFacts_attr relOID a (hal a ha)
+
+theorem insertAttr_perm (a : AttrRow) (l : List AttrRow) : insertAttr a l ~ a :: l := by
+  induction l with
+  | nil => exact Perm.refl _
+  | cons b bs ih =>
+    unfold insertAttr
+    by_cases h : a.num < b.num
+    · rw [if_pos h]
+    · rw [if_neg h]; exact ((Perm.cons b ih).trans (Perm.swap a b bs))
+
+theorem sortAttrs_perm (l : List AttrRow) : sortAttrs l ~ l := by
+  unfold sortAttrs
+  induction l with
+  | nil => exact Perm.refl _
+  | cons a l ih => exact (insertAttr_perm a _).trans (Perm.cons a ih)
+
+/-- on attribute numbers that do not occur in the list, Go's insertion (before the first element that is not
+smaller) and the specification's (before the first that is greater) agree -/
+theorem drInsertByAttNum_map (a : AttrRow) (l : List AttrRow) (h : a.num ∉ l.map (·.num)) :
+    drInsertByAttNum (modelAttr a) (l.map modelAttr) = (insertAttr a l).map modelAttr := by
+  induction l with
+  | nil => rfl
+  | cons b bs ih =>
+    simp only [List.map_cons, List.mem_cons, not_or] at h
+    unfold drInsertByAttNum insertAttr
+    simp only [List.map_cons]
+    have hne : a.num ≠ b.num := h.1
+    by_cases hlt : a.num < b.num
+    · have h' : ¬ (modelAttr b).attNum < (modelAttr a).attNum := by show ¬ b.num < a.num; omega
+      rw [if_neg h', if_pos hlt]; rfl
+    · have h' : (modelAttr b).attNum < (modelAttr a).attNum := by show b.num < a.num; omega
+      rw [if_pos h', if_neg hlt, List.map_cons, ih h.2]
+
+/-- `sort.Slice(attrs, attnum)` gives the specification's attnum order when the attribute numbers are distinct -/
+theorem drSortByAttNum_map (l : List AttrRow) (h : (l.map (·.num)).Nodup) :
+    drSortByAttNum (l.map modelAttr) = (sortAttrs l).map modelAttr := by
+  induction l with
+  | nil => rfl
+  | cons a l ih =>
+    simp only [List.map_cons, List.nodup_cons] at h
+    have hs : drSortByAttNum (modelAttr a :: l.map modelAttr) = drInsertByAttNum (modelAttr a) (drSortByAttNum (l.map modelAttr)) := rfl
+    have hs' : sortAttrs (a :: l) = insertAttr a (sortAttrs l) := rfl
+    rw [List.map_cons, hs, hs', ih h.2]
+    apply drInsertByAttNum_map
+    intro hm
+    exact h.1 (((sortAttrs_perm l).map (·.num)).mem_iff.mp hm)
+
+/-- the attributes of one relation have distinct attribute numbers when (attrelid, attnum) is unique -/
+theorem nums_nodup_of_rel (live : List AttrRow) (relOID : Nat) (hnd : (live.map fun a => (a.relid, a.num)).Nodup) :
+    ((live.filter fun a => decide (a.relid = relOID ∧ a.num > 0)).map (·.num)).Nodup := by
+  induction live with
+  | nil => simp
+  | cons a l ih =>
+    simp only [List.map_cons, List.nodup_cons] at hnd
+    by_cases hp : a.relid = relOID ∧ a.num > 0
+    · have hd : decide (a.relid = relOID ∧ a.num > 0) = true := by simpa using hp
+      rw [List.filter_cons, if_pos hd, List.map_cons, List.nodup_cons]
+      refine ⟨?_, ih hnd.2⟩
+      intro hm
+      obtain ⟨b, hb, hbn⟩ := List.mem_map.mp hm
+      have hb' := List.mem_filter.mp hb
+      have hbr : b.relid = relOID := by have := hb'.2; simp at this; exact this.1
+      exact hnd.1 (List.mem_map.mpr ⟨b, hb'.1, by rw [hbr, hp.1, hbn]⟩)
+    · have hd : ¬ decide (a.relid = relOID ∧ a.num > 0) = true := by simpa using hp
+      rw [List.filter_cons, if_neg hd]
+      exact ih hnd.2
+
+/-- the decoding column of a specification schema column -/
+def columnOf (s : DroppedSchemaCol) : Column := ⟨s.name, s.typid, s.len, s.num, s.align⟩
+
+theorem drDecInt_ne_nil (n : Int) : drDecInt n ≠ [] := by
+  unfold drDecInt
+  by_cases h : n < 0
+  · rw [if_pos h]; simp
+  · rw [if_neg h]; exact drDecNat_ne_nil _
+
+theorem buildColumn_modelAttr (a : AttrRow) (hname : a.name ≠ []) :
+    buildColumnsWithDropped [modelAttr a] = [columnOf (droppedSchemaCol a)] := by
+  cases hd : a.dropped with
+  | true => simp [buildColumnsWithDropped, modelAttr, columnOf, droppedSchemaCol, drRecoveredName, hd, droppedKey]
+  | false =>
+    simp [buildColumnsWithDropped, modelAttr, columnOf, droppedSchemaCol, drRecoveredName, hd]
+    intro h; exact absurd h hname
+
+theorem buildColumns_map (l : List AttrRow) (hname : ∀ a ∈ l, a.name ≠ []) :
+    buildColumnsWithDropped (l.map modelAttr) = l.map (columnOf ∘ droppedSchemaCol) := by
+  induction l with
+  | nil => rfl
+  | cons a l ih =>
+    have h1 := buildColumn_modelAttr a (hname a (by simp))
+    have h2 := ih fun b hb => hname b (by simp [hb])
+    unfold buildColumnsWithDropped at h1 h2 ⊢
+    simp only [List.map_cons, List.map_nil, List.cons.injEq, and_true] at h1
+    simp only [List.map_cons, h1, h2, Function.comp]
+
+/-! ### the schema literals against the layouts -/
+
+/-- the schema literal dropped.go reads a pg_attribute of layout `l` with -/
+def schemaOfLayout : Layout → List Column
+  | .v16 => schemaPGAttrDropped
+  | .v14 => schemaPGAttrDroppedV15
+  | .v12 => schemaPGAttrDroppedV12
+
+theorem typeAlign_oid : typeAlign 26 4 = 4 := by decide
+theorem typeAlign_name : typeAlign 19 64 = 1 := by decide
+theorem typeAlign_int2 : typeAlign 21 2 = 2 := by decide
+theorem typeAlign_int4 : typeAlign 23 4 = 4 := by decide
+theorem typeAlign_bool : typeAlign 16 1 = 1 := by decide
+theorem typeAlign_char : typeAlign 18 1 = 1 := by decide
 
 end PgVerif.Proofs.Dropped
